@@ -3039,3 +3039,328 @@ func ruleGeneralizeUnderlying(c *core.Ctx) {
 		}
 	}
 }
+
+// X10: the typing of a binary expression treats its two operands alike. In the *BinaryExpression case of
+// resolveComputedFields every test — if condition, switch tag, case expression — that reads something derived from one
+// operand reads the same thing of the other operand in the same way: the test is unchanged when Left and Right (and the
+// locals computed from them, paired by their definitions: lKind/rKind, lIsPrim/rIsPrim) are exchanged. A test on one
+// side only makes the static type of `a op b` differ from that of `b op a`.
+func ruleTypingSymmetric(c *core.Ctx) {
+	const rule = "X10"
+	c.Rule(rule, "dsl.resolveComputedFields, case *BinaryExpression: every condition is invariant under exchanging the left and the right operand (with the locals derived from them)", 2)
+	_, d, p := c.Func("pkg/dsl", "resolveComputedFields")
+	if d == nil {
+		c.Undecided(rule, "anchor/pkg/dsl.resolveComputedFields", 0, "anchor not found")
+		return
+	}
+	info := p.TypesInfo
+	cc, _ := caseOfKind(info, d, "*BinaryExpression")
+	if cc == nil {
+		c.Undecided(rule, "anchor/case *BinaryExpression", d.Pos(), "the case was not found")
+		return
+	}
+	// locals of the case paired by their definitions
+	pair := map[string]string{}
+	mentions := func(e ast.Expr, field string) bool {
+		found := false
+		ast.Inspect(e, func(n ast.Node) bool {
+			if se, ok := n.(*ast.SelectorExpr); ok && se.Sel.Name == field {
+				found = true
+			}
+			return true
+		})
+		return found
+	}
+	swapText := func(t string) string {
+		t = strings.ReplaceAll(t, ".Left", ".\x00")
+		t = strings.ReplaceAll(t, ".Right", ".Left")
+		return strings.ReplaceAll(t, ".\x00", ".Right")
+	}
+	type def struct {
+		names []string
+		rhs   string
+	}
+	var lefts, rights []def
+	for _, st := range cc.Body {
+		ast.Inspect(st, func(n ast.Node) bool {
+			as, ok := n.(*ast.AssignStmt)
+			if !ok || as.Tok != token.DEFINE || len(as.Rhs) != 1 {
+				return true
+			}
+			var names []string
+			for _, l := range as.Lhs {
+				if id, ok := l.(*ast.Ident); ok {
+					names = append(names, id.Name)
+				}
+			}
+			l, r := mentions(as.Rhs[0], "Left"), mentions(as.Rhs[0], "Right")
+			switch {
+			case l && !r:
+				lefts = append(lefts, def{names, types.ExprString(as.Rhs[0])})
+			case r && !l:
+				rights = append(rights, def{names, types.ExprString(as.Rhs[0])})
+			}
+			return true
+		})
+	}
+	for _, ld := range lefts {
+		for _, rd := range rights {
+			if swapText(ld.rhs) == rd.rhs && len(ld.names) == len(rd.names) {
+				for i := range ld.names {
+					if ld.names[i] != "_" && rd.names[i] != "_" {
+						pair[ld.names[i]] = rd.names[i]
+						pair[rd.names[i]] = ld.names[i]
+					}
+				}
+			}
+		}
+	}
+	oneSided := func(e ast.Expr) bool {
+		hit := false
+		ast.Inspect(e, func(n ast.Node) bool {
+			switch x := n.(type) {
+			case *ast.Ident:
+				if _, ok := pair[x.Name]; ok {
+					hit = true
+				}
+				for _, dd := range append(append([]def(nil), lefts...), rights...) {
+					for _, nm := range dd.names {
+						if nm == x.Name && nm != "_" {
+							hit = true
+						}
+					}
+				}
+			case *ast.SelectorExpr:
+				if x.Sel.Name == "Left" || x.Sel.Name == "Right" {
+					hit = true
+				}
+			}
+			return true
+		})
+		return hit
+	}
+	var canon func(e ast.Expr, swap bool) string
+	canon = func(e ast.Expr, swap bool) string {
+		switch x := ast.Unparen(e).(type) {
+		case *ast.BinaryExpr:
+			switch x.Op {
+			case token.LAND, token.LOR:
+				var terms []string
+				var collect func(y ast.Expr)
+				collect = func(y ast.Expr) {
+					if b, ok := ast.Unparen(y).(*ast.BinaryExpr); ok && b.Op == x.Op {
+						collect(b.X)
+						collect(b.Y)
+						return
+					}
+					terms = append(terms, canon(y, swap))
+				}
+				collect(x)
+				sort.Strings(terms)
+				return "(" + strings.Join(terms, " "+x.Op.String()+" ") + ")"
+			case token.EQL, token.NEQ:
+				a, b := canon(x.X, swap), canon(x.Y, swap)
+				if b < a {
+					a, b = b, a
+				}
+				return "(" + a + " " + x.Op.String() + " " + b + ")"
+			}
+			return "(" + canon(x.X, swap) + " " + x.Op.String() + " " + canon(x.Y, swap) + ")"
+		case *ast.UnaryExpr:
+			return x.Op.String() + canon(x.X, swap)
+		case *ast.Ident:
+			if swap {
+				if o, ok := pair[x.Name]; ok {
+					return o
+				}
+			}
+			return x.Name
+		case *ast.SelectorExpr:
+			name := x.Sel.Name
+			if swap {
+				if name == "Left" {
+					name = "Right"
+				} else if name == "Right" {
+					name = "Left"
+				}
+			}
+			return canon(x.X, swap) + "." + name
+		case *ast.CallExpr:
+			var args []string
+			for _, a := range x.Args {
+				args = append(args, canon(a, swap))
+			}
+			return canon(x.Fun, swap) + "(" + strings.Join(args, ", ") + ")"
+		}
+		t := types.ExprString(e)
+		if swap {
+			t = swapText(t)
+		}
+		return t
+	}
+	n := 0
+	check := func(e ast.Expr, what string) {
+		if e == nil || !oneSided(e) {
+			return
+		}
+		n++
+		key := fmt.Sprintf("resolveComputedFields/BinaryExpression/%s#%d", what, n)
+		a, b := canon(e, false), canon(e, true)
+		c.Check(a == b, rule, key, e.Pos(), "the test reads both operands alike",
+			"`"+types.ExprString(e)+"` looks at one operand only (exchanged: `"+b+"`): the resolved type of `a op b` can differ from that of `b op a`")
+	}
+	for _, st := range cc.Body {
+		ast.Inspect(st, func(nn ast.Node) bool {
+			switch x := nn.(type) {
+			case *ast.FuncLit:
+				return false
+			case *ast.IfStmt:
+				check(x.Cond, "if")
+			case *ast.SwitchStmt:
+				check(x.Tag, "switch")
+				if x.Tag == nil {
+					for _, cl := range x.Body.List {
+						for _, e := range cl.(*ast.CaseClause).List {
+							check(e, "case")
+						}
+					}
+				}
+			}
+			return true
+		})
+	}
+	// the two conversions inserted for the operands use the same target type
+	var convArgs []string
+	for _, st := range cc.Body {
+		ast.Inspect(st, func(nn ast.Node) bool {
+			if ce, ok := nn.(*ast.CallExpr); ok {
+				if f := core.Callee(info, ce); f != nil && f.Name() == "insertConversion" && len(ce.Args) == 2 {
+					side := ""
+					if mentions(ce.Args[0], "Left") {
+						side = "L"
+					} else if mentions(ce.Args[0], "Right") {
+						side = "R"
+					}
+					convArgs = append(convArgs, side+":"+types.ExprString(ce.Args[1]))
+				}
+			}
+			return true
+		})
+	}
+	okConv := len(convArgs) > 0 && len(convArgs)%2 == 0
+	for i := 0; i+1 < len(convArgs); i += 2 {
+		a, b := convArgs[i], convArgs[i+1]
+		if a[:1] == b[:1] || a[2:] != b[2:] {
+			okConv = false
+		}
+	}
+	c.Check(okConv, rule, "resolveComputedFields/BinaryExpression/operands converted to one type", cc.Pos(), "left and right operand are converted to the same type, in pairs",
+		fmt.Sprintf("the operands are not converted to one common type in pairs (%v): the arithmetic is done in different types depending on the side an operand is written on", convArgs))
+}
+
+// X11 (C05): a conversion between integer primitives that can lose values is range-checked. The
+// `case *dsl.TypeChangeNumberToNumber:` clause of cpp/binary.writeTypeConversion is evaluated (finite domain: every
+// ordered pair of the integer primitives, read direction) and the `if (...)` it prints in front of the static_cast is
+// compared with arithmetic: an upper-bound test is needed exactly when max(old) > max(new), a lower-bound test
+// exactly when min(old) < min(new).
+func ruleIntegerNarrowingChecked(c *core.Ctx) {
+	const rule = "X11"
+	c.Rule(rule, "cpp/binary.writeTypeConversion, integer -> integer: the emitted range test has an upper bound iff the old type's maximum exceeds the new type's and a lower bound iff the old type is signed and the new type cannot hold its minimum (all ordered pairs of int8..int64, uint8..uint64, size)", 50)
+	_, d, p := c.Func("internal/cpp/binary", "writeTypeConversion")
+	if d == nil {
+		c.Undecided(rule, "anchor/internal/cpp/binary.writeTypeConversion", 0, "anchor not found")
+		return
+	}
+	info := p.TypesInfo
+	cc, obj := caseOfKind(info, d, "*dsl.TypeChangeNumberToNumber")
+	if cc == nil {
+		c.Undecided(rule, "anchor/case *dsl.TypeChangeNumberToNumber", d.Pos(), "the case was not found")
+		return
+	}
+	// the direction flag: the bool parameter; the read direction is where the conversion is written out
+	var writeObj types.Object
+	for _, po := range paramObjs(info, d) {
+		if po != nil && isBoolType(po.Type()) {
+			writeObj = po
+		}
+	}
+	type prim struct {
+		name   string
+		signed bool
+		bits   int
+	}
+	prims := []prim{{"int8", true, 8}, {"int16", true, 16}, {"int32", true, 32}, {"int64", true, 64},
+		{"uint8", false, 8}, {"uint16", false, 16}, {"uint32", false, 32}, {"uint64", false, 64}, {"size", false, 64}}
+	for _, o := range prims {
+		for _, n := range prims {
+			if o.name == n.name {
+				continue
+			}
+			key := "writeTypeConversion/" + o.name + " -> " + n.name
+			maxBits := func(q prim) int {
+				if q.signed {
+					return q.bits - 1
+				}
+				return q.bits
+			}
+			needUpper := maxBits(o) > maxBits(n)
+			needLower := o.signed && (!n.signed || o.bits > n.bits)
+			var texts []string
+			undecided := ""
+			var explore func(choices []bool)
+			explore = func(choices []bool) {
+				pi := &pinterp{c: c, choices: choices, oldPrim: o.name, newPrim: n.name}
+				env := &penv{vars: map[types.Object]pval{}}
+				if obj != nil {
+					env.vars[obj] = pval{k: pvNode, s: "change"}
+				}
+				if writeObj != nil {
+					env.vars[writeObj] = pval{k: pvBool, b: false}
+				}
+				pi.exec(info, cc.Body, env)
+				if pi.unknown != "" {
+					undecided = pi.unknown
+					return
+				}
+				if pi.asked > len(choices) {
+					for _, b := range []bool{false, true} {
+						explore(append(append([]bool(nil), choices...), b))
+					}
+					return
+				}
+				var sb strings.Builder
+				for _, ev := range pi.events {
+					if strings.HasPrefix(ev, "emit:") {
+						sb.WriteString(strings.TrimPrefix(ev, "emit:"))
+					}
+				}
+				texts = append(texts, sb.String())
+			}
+			explore(nil)
+			if undecided != "" || len(texts) == 0 {
+				c.Undecided(rule, key, cc.Pos(), "the clause could not be evaluated: "+undecided)
+				continue
+			}
+			bad := ""
+			for _, t := range texts {
+				// the range test: everything in front of the cast
+				head := t
+				if i := strings.Index(t, "static_cast<"); i >= 0 {
+					head = t[:i]
+				}
+				hasUpper := strings.Contains(head, "> std::numeric_limits<") || strings.Contains(head, ">= std::numeric_limits<")
+				hasLower := strings.Contains(head, "< 0") || strings.Contains(head, "lowest()") || strings.Contains(head, "::min()")
+				if !strings.Contains(t, "static_cast<") {
+					bad = "no static_cast is emitted"
+				}
+				if needUpper && !hasUpper {
+					bad = "values above the maximum of " + n.name + " are converted without a test: they wrap around silently instead of raising 'Numeric overflow'"
+				}
+				if needLower && !hasLower {
+					bad = "negative values are converted to " + n.name + " without a test: they wrap around silently instead of raising 'Numeric overflow'"
+				}
+			}
+			c.Check(bad == "", rule, key, cc.Pos(), fmt.Sprintf("upper test %v, lower test %v, as the value ranges require", needUpper, needLower), bad)
+		}
+	}
+}
